@@ -286,7 +286,7 @@ def replace_expr(relpath: str, defpath: Optional[str], old_expr: str, new_expr: 
         count = [0]
 
         def p(n):
-            if isinstance(n, ast.expr) and text(n) == okey:
+            if isinstance(n, ast.expr) and not isinstance(getattr(n, "ctx", None), (ast.Store, ast.Del)) and text(n) == okey:
                 count[0] += 1
                 return count[0] - 1 == nth
             return False
